@@ -6,7 +6,33 @@ use crate::slog;
 use serde_json::{json, Value};
 use std::fs;
 
-pub const VR: &str = "/verif/work/vr";
+/// become a session of our own (so that the reporting children of this run, which find their
+/// report directory by session id, cannot collide with another run) and prepare the directories
+pub fn begin_run() {
+    unsafe {
+        libc::setsid();
+    }
+    let d = vr();
+    let _ = fs::remove_dir_all(&d);
+    let _ = fs::create_dir_all(&d);
+    use std::os::unix::fs::PermissionsExt;
+    let _ = fs::set_permissions("/verif/work/vr", fs::Permissions::from_mode(0o777));
+    let _ = fs::set_permissions(&d, fs::Permissions::from_mode(0o777));
+    let t = tmpd();
+    let _ = fs::create_dir_all(&t);
+    let _ = fs::set_permissions(&t, fs::Permissions::from_mode(0o777));
+}
+pub fn end_run() {
+    let _ = fs::remove_dir_all(vr());
+}
+/// where the reporting children of this run write: /verif/work/vr/<session id>
+pub fn vr() -> String {
+    format!("/verif/work/vr/{}", unsafe { libc::getsid(0) })
+}
+/// scratch directory of this run (VERIF_RUNDIR, set by the driver)
+pub fn tmpd() -> String {
+    std::env::var("VERIF_RUNDIR").unwrap_or_else(|_| "/verif/work/tmp".to_string())
+}
 
 /// (fd, ino, acc, pos, cloexec) of every open descriptor of this process
 pub fn fd_table() -> Vec<Value> {
@@ -277,7 +303,7 @@ pub fn kill_all_children() {
 }
 
 pub fn read_report(pid: u32) -> Option<Value> {
-    let p = format!("{}/{}.json", VR, pid);
+    let p = format!("{}/{}.json", vr(), pid);
     for _ in 0..200 {
         if let Ok(s) = fs::read_to_string(&p) {
             if let Ok(v) = serde_json::from_str::<Value>(&s) {
